@@ -33,19 +33,19 @@ for d in sorted(glob.glob('/verif/seeded/*/')):
                                'builds': b.returncode == 0, 'demo_fails_with_change': r1.returncode != 0})
     finally:
         run(['git', '-C', '/repo', 'worktree', 'remove', '--force', scratch])
-    if run(['git', '-C', '/repo', 'status', '--porcelain']).stdout.strip():
-        print('refusing: /repo dirty'); sys.exit(2)
-    run(['git', '-C', '/repo', 'apply', d + 'patch.diff'])
+    alt = tempfile.mkdtemp(prefix='seedalt-', dir='/tmp'); os.rmdir(alt)
+    run(['git', '-C', '/repo', 'worktree', 'add', '-q', '--detach', alt, 'HEAD'])
     try:
+        run(['git', 'apply', d + 'patch.diff'], cwd=alt)
         if not nobase:
-            bl = run(['/verif/tools/baseline.sh'])
+            bl = subprocess.run(['/verif/tools/baseline.sh', alt], env=ENV, capture_output=True, text=True, timeout=3600)
             m['confirmed']['baseline_passes_with_change'] = bl.returncode == 0
         for pr in list(m['checks'].keys()):
-            r = run(['/verif/check', pr, '--tier', 'quick'], cwd='/verif', timeout=3600)
+            r = subprocess.run(['/verif/check', pr, '--tier', 'quick'], cwd='/verif', env=dict(ENV, VERIF_REPO=alt), capture_output=True, text=True, timeout=3600)
             lines = [l for l in r.stdout.splitlines() if l.startswith('VIOLATION') or l.startswith('  ')][:6]
             m['checks'][pr] = {'exit': r.returncode, 'detected': r.returncode == 1, 'first_lines': lines}
     finally:
-        run(['git', '-C', '/repo', 'checkout', '--', '.'])
+        run(['git', '-C', '/repo', 'worktree', 'remove', '--force', alt])
     m['reverified_at_repo_head'] = run(['git', '-C', '/repo', 'rev-parse', '--short', 'HEAD']).stdout.strip()
     json.dump(m, open(mp, 'w'), indent=1)
     okc = all(m['confirmed'].values())
